@@ -310,6 +310,19 @@ impl<L: ChainListener> ChainTracker<L> {
         proof: TxoProof,
         supplied_prev_headers: Headers,
     ) -> Result<BlockHeader, Error> {
+        let was_streamed = self.decode_state.is_some();
+        let res = self.do_remove_block(proof, supplied_prev_headers);
+        if was_streamed && res.is_err() {
+            self.abort_streamed_block();
+        }
+        res
+    }
+
+    fn do_remove_block(
+        &mut self,
+        proof: TxoProof,
+        supplied_prev_headers: Headers,
+    ) -> Result<BlockHeader, Error> {
         // there are four block hashes in play here:
         // - the block hash in the BlockChunk messages
         // - our idea of the tip's block hash (`tip_block_hash`)
@@ -455,6 +468,24 @@ impl<L: ChainListener> ChainTracker<L> {
 
     /// Add a block, which becomes the new tip
     pub fn add_block(&mut self, header: BlockHeader, proof: TxoProof) -> Result<(), Error> {
+        let was_streamed = self.decode_state.is_some();
+        let res = self.do_add_block(header, proof);
+        if was_streamed && res.is_err() {
+            self.abort_streamed_block();
+        }
+        res
+    }
+
+    // A streamed block whose add / remove request was refused is abandoned: drop our decode
+    // state and the listeners', so that the next request starts from a clean slate.
+    fn abort_streamed_block(&mut self) {
+        self.decode_state = None;
+        for (listener, _) in self.listeners.values() {
+            listener.on_streamed_block_abort();
+        }
+    }
+
+    fn do_add_block(&mut self, header: BlockHeader, proof: TxoProof) -> Result<(), Error> {
         // there are four block hashes in play here:
         // - the block hash in the BlockChunk messages
         // - the block hash of the AddBlock message's header (`message_block_hash`)
@@ -792,6 +823,10 @@ pub trait ChainListener: SendSync {
         &self,
         block_hash: &BlockHash,
     ) -> (Vec<OutPoint>, Vec<OutPoint>);
+
+    /// A streamed block (see `on_push`) was abandoned, because the request that ended it was
+    /// refused.  Any state accumulated from its push events must be dropped.
+    fn on_streamed_block_abort(&self) {}
 
     /// Get the block push decoder listener
     fn on_push<F>(&self, f: F)
